@@ -51,7 +51,8 @@ Definition on_snapshot_taken (opt : options) (s : nstate) : outcome W :=
           if log_contains s0 idx then
             let is_ldr := st_role s0 =? Leader in
             let repls := match st_ldr s0 with Some l => if is_ldr then ld_repls l else [] | None => [] end in
-            let now_bound := min_list idx (map rp_match repls) in
+            (* the entry at a follower's matchIndex is still read through its replication's view: kept *)
+            let now_bound := min_list idx (map (fun r => rp_match r - 1) repls) in
             let can_bound := min_list idx (map rp_match (filter (fun r => negb (rp_nocontact r)) repls)) in
             (* CanLTE picks segment boundaries: oracles, constrained by the bounds *)
             let np := if o_newprev opt =? 0 then st_logprev s0 else o_newprev opt in
